@@ -167,7 +167,7 @@ func chunkSizes(rng *vlib.Rng, class string, total int, bounds []int) []int {
 var chunkClasses = []string{"whole", "bytes", "mss", "boundary+-1", "random"}
 
 func (e *env) dataCases() {
-	n := e.r.Scale(40, 700)
+	n := e.r.Scale(120, 700)
 	for i := 0; i < n; i++ {
 		e.dataCase(Case{Kind: "data", Seed: e.seed, Sub: uint64(i)})
 	}
@@ -419,7 +419,7 @@ func sizeClass(n int) string {
 // ---------------------------------------------------------------- malformed packet streams (C10)
 
 func (e *env) garbageCases() {
-	n := e.r.Scale(40, 600)
+	n := e.r.Scale(120, 600)
 	for i := 0; i < n; i++ {
 		e.garbageCase(Case{Kind: "garbage", Seed: e.seed, Sub: uint64(i)})
 	}
@@ -565,7 +565,7 @@ func (e *env) flipPrepare(target string) *flipPre {
 }
 
 func (e *env) flipCases() {
-	targets := []string{"payload"}
+	targets := []string{"payload", "seed"}
 	if e.r.Thorough() {
 		targets = []string{"payload", "ticket", "seed", "empty", "big"}
 	}
